@@ -8,6 +8,8 @@
 //	hist <mem|sql> <op>,<op>,…        datastore level
 //	cmd  <mem|sql> <op>,<op>,…        through the commands (a model exists for every pair except "nomodel" ones)
 //	api  <storeIdHex> <modelIdHex>    Server.WriteAssertions / ReadAssertions with these ids (validation only)
+//	sf   q…                           overlapping resolutions of (store, model id) — what WriteAssertions / ReadAssertions
+//	                                  resolve their model with — over a slow datastore, cold cache (harness/sfres)
 //
 //	op := w:<storeHex>:<modelHex>:<alist>        WriteAssertions
 //	    | r:<storeHex>:<modelHex>                ReadAssertions
@@ -46,6 +48,7 @@ import (
 	"github.com/openfga/openfga/pkg/storage/sqlcommon"
 	"github.com/openfga/openfga/pkg/storage/sqlite"
 	"github.com/openfga/openfga/verifharness/hx"
+	"github.com/openfga/openfga/verifharness/sfres"
 )
 
 var (
@@ -182,6 +185,8 @@ func exec(line string, st *hx.Stats) string {
 	f := strings.Fields(line)
 	ctx := context.Background()
 	switch f[0] {
+	case "sf":
+		return sfres.Exec(line)
 	case "hist", "cmd":
 		var ds storage.OpenFGADatastore
 		if f[1] == "mem" {
@@ -380,6 +385,13 @@ func genList(r *hx.Rand, valid bool) []*openfgav1.Assertion {
 func gen(r *hx.Rand, n int, tier string, emit func(string), st *hx.Stats) {
 	for i := 0; i < n; i++ {
 		c := r.Fork()
+		if c.Chance(1, 14) {
+			// the model of a (store, model id) pair is resolved through the typesystem resolver: two models of one store
+			// (or one id on two stores) resolved at the same time must each come back as themselves
+			st.Inc("resolver-flights")
+			emit(sfres.Gen(c, true))
+			continue
+		}
 		k := c.Intn(20)
 		switch {
 		case k == 0:
